@@ -157,7 +157,7 @@ def drive_ro(b, refs, vals, frozen, ops, out, label, judge=True):
     flags = {"skipped": 0, "rejected": 0, "served": 0}
     for step, op in enumerate(ops):
         exp = expect_ro(op, frozen)
-        got = storeops.apply_backend(b, refs, vals, op, model_before=(None if op[0] == "wmeta" else frozen.d))
+        got = storeops.apply_backend(b, refs, vals, op, model_before=(None if op[0] in ("wmeta", "wmetad") else frozen.d))
         out["obs"]["ro_ops"] += 1
         if not judge:
             out["obs"]["ro_ops_on_damaged_stores"] += 1
